@@ -12,11 +12,12 @@ Oracle (differential, two formulations of the real implementation judged by inde
 import itertools
 
 PROPERTY = 'C08'
-TIMEOUT = 90.0
+TIMEOUT = 40.0
 CHUNK = 16
 FLOOR = 0.45
 RULE = ('det: every assignment of the 10 bound patterns {free,>=0,<=0,lower!=0,upper!=0,both,[0,u],[l,0],fixed 0,'
-        'fixed !=0} to n variables x row-sense mixes (1-3 rows of <=,>=,==) x 20 cone kinds x {min,max}; '
+        'fixed !=0} to n=2 variables x 7 row-sense mixes (1-3 rows of <=,>=,==) x 20 cone kinds x {min,max} '
+        '(thorough: + all 39 ordered row mixes x 8 cone kinds, + n=3 x 3 row mixes x 5 cone kinds); '
         'ro: 17 set kinds x 3 rule kinds x 6 bound pairs x 2 objective forms x {min,max}; dro: 4 supports x 3 '
         'expectation sets x 2 probability sets x 4 adaptations x {min,max}.  A case is non-trivial when primal and '
         'dual are both reported optimal by the same interface, |v_P| > 1e-3 and (det) a finite user bound or a '
@@ -51,6 +52,8 @@ ROWS_Q = ['L', 'G', 'E', 'LG', 'GE', 'EE', 'LGE']
 ROWS_T = [''.join(p) for k in (1, 2, 3) for p in itertools.product('LGE', repeat=k)]
 CONES = ['none', 'norm', 'square', 'sumsqr', 'rsocone', 'quad', 'exp', 'log', 'entropy', 'kldiv', 'expcone',
          'softplus', 'norm+exp', 'sumsqr+kldiv', 'rsocone+log', 'cc1', 'cc2', 'ccshare1', 'ccshare2', 'cccount']
+CONES_T2 = ['none', 'norm', 'rsocone', 'exp', 'kldiv', 'norm+exp', 'cc1', 'cc2']
+CONES_T3 = ['none', 'norm', 'exp', 'norm+exp', 'cc2']
 RO_SETS = ['boxB', 'boxB0', 'boxBn', 'boxA', 'linf', 'l1', 'l2', 'poly', 'l2box', 'expset', 'l2exp', 'l2l2',
            'l2l2d', 'l2zero', 'sumsqr', 'square', 'l2cexp']
 RO_RULES = ['static', 'ldr', 'ldr0']
@@ -66,19 +69,24 @@ def gen_cases(tier, seed):
     thorough = tier == 'thorough'
     pal = seed % 4
     # ---- deterministic family
-    for n in ((2, 3) if thorough else (2,)):
-        rows = ROWS_Q
-        for bp in itertools.product(BPS, repeat=n):
-            for rw in rows:
-                for cone in CONES:
-                    for sense in ('min', 'max'):
-                        yield {'fam': 'det', 'bp': list(bp), 'rows': rw, 'cone': cone, 'sense': sense, 'pal': pal}
+    for bp in itertools.product(BPS, repeat=2):
+        for rw in ROWS_Q:
+            for cone in CONES:
+                for sense in ('min', 'max'):
+                    yield {'fam': 'det', 'bp': list(bp), 'rows': rw, 'cone': cone, 'sense': sense, 'pal': pal}
     if thorough:
+        # every ordered row-sense mix of 1-3 rows (n = 2) on the cone kinds that select different dual branches
         for bp in itertools.product(BPS, repeat=2):
             for rw in ROWS_T:
                 if rw in ROWS_Q:
                     continue
-                for cone in CONES:
+                for cone in CONES_T2:
+                    for sense in ('min', 'max'):
+                        yield {'fam': 'det', 'bp': list(bp), 'rows': rw, 'cone': cone, 'sense': sense, 'pal': pal}
+        # n = 3: all 10^3 bound-pattern assignments
+        for bp in itertools.product(BPS, repeat=3):
+            for rw in ('L', 'GE', 'LGE'):
+                for cone in CONES_T3:
                     for sense in ('min', 'max'):
                         yield {'fam': 'det', 'bp': list(bp), 'rows': rw, 'cone': cone, 'sense': sense, 'pal': pal}
     # ---- ro family
@@ -108,10 +116,14 @@ def exhaustive(tier):
 
 def bounds(tier):
     th = tier == 'thorough'
-    return {'n_variables': 3 if th else 2, 'bound_patterns': len(BPS), 'row_mixes': len(ROWS_T if th else ROWS_Q),
-            'cone_kinds': len(CONES), 'ro_specs': len(RO_SETS) * len(RO_RULES) * len(RO_XBP) * len(RO_FORMS) * 2,
-            'dro_specs': len(DRO_SUPP) * len(DRO_EXPT) * len(DRO_PROB) * len(DRO_ADAPT) * 2,
-            'palettes_ro_dro': 4 if th else 1}
+    b = {'n_variables': 2, 'bound_patterns': len(BPS), 'row_mixes': len(ROWS_Q), 'cone_kinds': len(CONES),
+         'ro_specs': len(RO_SETS) * len(RO_RULES) * len(RO_XBP) * len(RO_FORMS) * 2,
+         'dro_specs': len(DRO_SUPP) * len(DRO_EXPT) * len(DRO_PROB) * len(DRO_ADAPT) * 2,
+         'palettes_ro_dro': 4 if th else 1}
+    if th:
+        b.update({'n2_all_row_mixes': '%d ordered mixes x %d cone kinds' % (len(ROWS_T), len(CONES_T2)),
+                  'n3': '10^3 bound assignments x 3 row mixes x %d cone kinds' % len(CONES_T3)})
+    return b
 
 
 # ------------------------------------------------------------------------------------------------
@@ -186,9 +198,19 @@ def build_det(case, fixed_as_rows=False):
         ops += 1
     cone = case['cone']
     s = _arg(x, w, n)
+    t1 = t
     use_t = cone != 'none'
     extra = None
-    for part in cone.split('+'):
+    t2 = None
+    if '+' in cone:
+        # a second epigraph variable, so that BOTH cones of a combination are active at the optimum
+        t2 = m.dvar()
+        m.st(1.0 * t2 <= TBOX)
+        m.st(-1.0 * t2 <= TBOX)
+        ops += 3
+    t_all = [t1, t2]
+    for kpart, part in enumerate(cone.split('+')):
+        t = t_all[kpart]
         if part == 'norm':
             m.st(rso.norm(x - 0.5) <= t)
         elif part == 'square':
@@ -244,13 +266,14 @@ def build_det(case, fixed_as_rows=False):
         ops += 1
     cx = [1.0, -0.75, 0.5][:n]
     lin = sum(cx[i] * x[i] for i in range(n)) + 0.5 * w
+    tsum = t1 if t2 is None else t1 + t2
     if case['sense'] == 'min':
-        obj = lin + t if use_t else lin
+        obj = lin + tsum if use_t else lin
         if extra is not None:
             obj = obj + extra
         m.min(obj)
     else:
-        obj = lin - t if use_t else lin
+        obj = lin - tsum if use_t else lin
         if extra is not None:
             obj = obj - extra
         m.max(obj)
@@ -505,6 +528,11 @@ def judge(m):
         if vd in ('infeasible', 'unbounded'):
             return {'verdict': 'viol', 'how': 'dual_' + vd, 'kind': kind, 'cause': soc_cause(fP, fD),
                     'detail': '%s: primal optimal %.8g, dual reported %s (%s)' % (iface, valp, vd, rawd)}
+        if vd.startswith('error:') and 'positive semi-definite' in rawd:
+            # the interface solved the primal, but refuses the dual as non-convex: a cone head of the dual has
+            # no lower bound 0 (rsome's Gurobi translation of qmat rows relies on it) -> "both solvable" fails
+            return {'verdict': 'viol', 'how': 'dual_not_convex_for_gurobi', 'kind': kind, 'cause': soc_cause(fP, fD),
+                    'detail': 'grb: primal optimal %.8g, dual rejected: %s' % (valp, rawd)}
         if vd != 'optimal':
             notes.append('%s:dual %s' % (iface, vd))
             continue
@@ -551,7 +579,8 @@ def run_case(case):
                       r['how'].split(':')[0].replace('dual_infeasible', 'dual_wrong').replace('dual_unbounded', 'dual_wrong').replace('value', 'dual_wrong')
                 return {'status': 'violation', 'sig': sig, 'ops': ops, 'detail': r['detail'],
                         'outcome': 'viol fixnz'}
-            attributed = '|also fails without Bounds: ' + r2.get('how', r2['verdict'])
+            attributed = ('|also fails without Bounds: ' + r2['how'].split(':')[0]) if r2['verdict'] == 'viol' else \
+                '|attribution run inconclusive'
         how = r['how'].replace('dual_infeasible', 'dual_not_solvable').replace('dual_unbounded', 'dual_not_solvable')
         cause = r.get('cause') or 'unknown'
         sig = '%s|%s%s|cause=%s' % (tag, how, attributed, cause)
